@@ -859,6 +859,9 @@ struct SRunner {
         } else if (res.nodeEmptyAfterInsert) {
           viol(VK_MODEL, base_of(tgt), "insert(hint, node) met an equivalent element but the node no longer owns its value");
           return;
+        } else if (res.reads.empty() || res.reads[0] != v) {
+          viol(VK_MODEL, base_of(tgt), "insert(hint, node) met an equivalent element and the node's value changed (moved-from)");
+          return;
         }
       } break;
       case S_SWAP: m.swap(w->model); std::swap(s.mode, w->mode); break;
